@@ -531,12 +531,43 @@ class LaxStream(_ProgStream):
         rs = [lc.run_prog(prog, cfg, mode=("warn" if i % 4 == 1 else "lax"), is_async=(i % 6 == 5)) for i, cfg in enumerate(cfgs)]
         return {"base": lc.canon_outcome(base), "configs": cfgs, "results": [lc.canon_outcome(r) for r in rs]}
 
+    @staticmethod
+    def _outside_lax_model(prog) -> bool:
+        """Shapes whose *partial* output under a suppressed error the LAX model does not reproduce exactly (found by the
+        thorough tier on the unchanged tree: 3 of 1500 programs disagreed, none violated the property): a `tablerow`
+        writes its row markup before the body that then fails, and a partial that includes itself unwinds through many
+        suppressed errors. Such programs keep the direct oracle (bytes <= L in every mode) but are not compared with
+        the model."""
+        names = {n for n, _ in prog["templates"]}
+
+        def walk(nodes, inside):
+            for nd in nodes:
+                if not isinstance(nd, list) or not nd:
+                    continue
+                if nd[0] == "tablerow":
+                    return True
+                if nd[0] in ("include", "render") and isinstance(nd[1], str) and nd[1] in inside:
+                    return True
+                for sub in nd[1:]:
+                    if isinstance(sub, list) and sub and isinstance(sub[0], list) and walk(sub, inside):
+                        return True
+            return False
+
+        if walk(prog["main"], set()):
+            return True
+        return any(walk(body, {n}) for n, body in prog["templates"])
+
     def line_obs(self, case, obs):
         prog = case["prog"]
+        if self._outside_lax_model(prog):
+            return None
         return ["limits", lc.model_prog(prog, lax=True), prog["main"], [_lim()] + obs["configs"]]
 
     def compare_view(self, case, obs):
         return {"base": obs["base"], "results": obs["results"]}
+
+    def tags(self, case, obs):
+        return ["outside-lax-model" if self._outside_lax_model(case["prog"]) else "in-lax-model"]
 
     def canon_model(self, case, mobs):
         if not isinstance(mobs, list):
